@@ -654,6 +654,21 @@ def keyword_chains(P, R, rule='C16.TAB.6'):
             dup = sorted({w for w in words if words.count(w) > 1})
             n += 1
             R.ob(rule, not dup, f, 'in %s each of the %d words compared with %s is tested once%s' % (f.name, len(words), subj, (' (tested twice: %s)' % ', '.join(repr(d) for d in dup)) if dup else ''), key='keyword-once:%s' % f.name)
+    # the same words kept in a table of { word, meaning } rows
+    for name, defs in P.globals.items():
+        for u, g in defs:
+            if u != unit or not isinstance(g.get('init'), dict):
+                continue
+            rows = [it for it in g['init'].get('items', []) if isinstance(it, dict) and it.get('k') == 'init']
+            words = []
+            for it in rows:
+                strs = [x.get('v') for x in (it.get('items') or []) if isinstance(x, dict) and x.get('k') == 'str']
+                if len(strs) == 1:
+                    words.append(strs[0])
+            if len(words) >= 4 and len(words) == len(rows):
+                dup = sorted({w for w in words if words.count(w) > 1})
+                n += 1
+                R.ob(rule, not dup, P.relloc(g.get('loc', '?')), 'each of the %d words of table %s occurs once%s' % (len(words), name, (' (twice: %s)' % ', '.join(repr(d) for d in dup)) if dup else ''), key='keyword-once:%s' % name)
     R.floor(rule, 1, 'keyword chains in the configuration unit')
 
 
